@@ -146,6 +146,12 @@ func (p *SolverProc) readSexp() (string, error) {
 }
 
 func (p *SolverProc) define(ts []*Term) {
+	if txt := p.defineText(ts); txt != "" {
+		p.send(txt)
+	}
+}
+
+func (p *SolverProc) defineText(ts []*Term) string {
 	// iterative post-order
 	var sb strings.Builder
 	var stack []*Term
@@ -190,9 +196,7 @@ func (p *SolverProc) define(ts []*Term) {
 			}
 		}
 	}
-	if sb.Len() > 0 {
-		p.send(sb.String())
-	}
+	return sb.String()
 }
 
 func cacheKey(as []*Term) string {
@@ -240,6 +244,9 @@ func (s *Solver) Check(as []*Term, wantModel bool) (Result, Model) {
 		if a.HasFP {
 			useCVC5 = true
 		}
+	}
+	if useCVC5 && !s.forceCVC5 {
+		return s.checkOneShot(live, wantModel, key)
 	}
 	var p *SolverProc
 	var err error
@@ -497,4 +504,105 @@ func parseModel(txt string, vars []*Term, m Model) {
 			}
 		}
 	}
+}
+
+// checkOneShot runs cvc5 non-incrementally on a self-contained script (much faster for floating point).
+func (s *Solver) checkOneShot(live []*Term, wantModel bool, key string) (Result, Model) {
+	t0 := time.Now()
+	tmp := &SolverProc{name: "cvc5-oneshot", defined: map[int]bool{}, ufs: map[string]bool{}}
+	var sb strings.Builder
+	sb.WriteString("(set-logic ALL)\n")
+	sb.WriteString(tmp.defineText(live))
+	for _, a := range live {
+		fmt.Fprintf(&sb, "(assert %s)\n", a.ref())
+	}
+	sb.WriteString("(check-sat)\n")
+	var vars []*Term
+	if wantModel {
+		CollectVars(live, map[*Term]bool{}, &vars)
+		if len(vars) > 0 {
+			sb.WriteString("(get-value (")
+			for _, v := range vars {
+				sb.WriteString(v.ref() + " ")
+			}
+			sb.WriteString("))\n")
+		}
+	}
+	if s.logDir != "" {
+		os.WriteFile(fmt.Sprintf("%s/cvc5-oneshot-%d-%d.smt2", s.logDir, os.Getpid(), s.Stats.Queries), []byte(sb.String()), 0o644)
+	}
+	// portfolio: cvc5 and z3 race on the same script; first definitive answer wins
+	type ans struct {
+		res Result
+		out string
+		who string
+	}
+	ch := make(chan ans, 2)
+	script := sb.String()
+	cmds := []*exec.Cmd{
+		exec.Command("cvc5", "--produce-models", fmt.Sprintf("--tlimit=%d", s.timeoutMs), "--fp-exp", "--lang=smt2"),
+		exec.Command(s.z3bin, "-in", fmt.Sprintf("-T:%d", s.timeoutMs/1000+1)),
+	}
+	for i, c := range cmds {
+		c := c
+		who := []string{"cvc5", "z3"}[i]
+		c.Stdin = strings.NewReader(script)
+		go func() {
+			outb, _ := c.CombinedOutput()
+			out := string(outb)
+			r := Unknown
+			first := strings.TrimSpace(strings.SplitN(out, "\n", 2)[0])
+			switch first {
+			case "sat":
+				r = Sat
+			case "unsat":
+				r = Unsat
+			}
+			if strings.Contains(first, "error") {
+				fmt.Fprintln(os.Stderr, "solver error ("+who+" one-shot):", first)
+			}
+			ch <- ans{r, out, who}
+		}()
+	}
+	res := Unknown
+	out := ""
+	for i := 0; i < 2; i++ {
+		a := <-ch
+		if a.res != Unknown {
+			res, out = a.res, a.out
+			break
+		}
+	}
+	for _, c := range cmds {
+		if c.Process != nil {
+			c.Process.Kill()
+		}
+	}
+	var model Model
+	if res == Sat && wantModel {
+		model = Model{}
+		if i := strings.Index(out, "\n"); i >= 0 && len(vars) > 0 {
+			parseModel(out[i+1:], vars, model)
+		}
+	}
+	d := time.Since(t0)
+	s.Stats.WallCVC5 += d
+	s.Stats.QCVC5++
+	if d > s.Stats.MaxQuery {
+		s.Stats.MaxQuery = d
+	}
+	if d > 2*time.Second && os.Getenv("GOSYM_DEBUG") != "" {
+		fmt.Fprintf(os.Stderr, "[slow query] %.1fs cvc5-oneshot result=%v nassert=%d ctx=%s\n", d.Seconds(), res, len(live), s.Ctx)
+	}
+	s.Stats.Queries++
+	switch res {
+	case Sat:
+		s.Stats.Sat++
+	case Unsat:
+		s.Stats.Unsat++
+	default:
+		s.Stats.Unknown++
+	}
+	s.cache[key] = res
+	return res, model
 }
